@@ -8,6 +8,9 @@ import JSight.ExampleAllOf
 import JSight.ExampleTextRProofs
 import JSight.KeysRawProofs
 import JSight.E2E
+import JSight.ExampleShortCut
+import JSight.ExampleShortAgree
+import JSight.ExampleShortBytes
 /-!
 # C15 — Example() emits well-formed JSON
 
@@ -373,3 +376,119 @@ end Props.C15
 #print axioms Props.C15.C15_annotated_keys_raw
 #print axioms Props.C15.C15_annotated_text_roundtrip
 #print axioms Props.C15.C15_annotated_text_roundtrip_full_holds
+
+/-! ## C15 at TEXT level for schema texts with SHORTCUT leaves (work package c15short; modules `ExampleShort`,
+`ExampleShortClass`, `ExampleShortText`, `ExampleShortCut`)
+
+Specification level (part (2) of the package; the builder MODEL on loader nodes, `Loader.exBuildR`, still answers `none`
+at a `mixed` node, so `C15_shortcut_example_closed` — model's builder = rendering of `exampleOf` — is NOT delivered).
+`RE.exampleOf tys fuel : BST → Option Doc` is the closed form of `exampleBuilder.Build` on a tree with shortcut leaves
+WITHOUT the recursion cut-off: a scalar leaf is its token, a container the examples of its children in order, a shortcut
+leaf `@A | @B | …` the example of the tree added under its FIRST name (`GetTypes()[0]`; the other names are never
+consulted); `none` = fuel exhausted (every fuel, when a type is reachable from itself through first names) or first name
+not added. `RE.exampleCut` is the transliteration WITH the cut-off (`processedTypes[name] > 1` ↦ `nil`, dropped by the
+enclosing container). -/
+
+namespace Props.C15
+open SE (BST TypeText TextOK TypesOK docText typeTexts typesOf cnOf)
+
+/-- **whatever the closed form answers is admitted** by the tree it was built from (shortcut leaves read as the union of
+the trees of their names, `C03_text_level_refs`) — any table, recursive ones included (there `exampleOf` answers `none`
+where the real builder starts dropping members); class: scalars whose kind can be guessed, decoded keys of every object
+pairwise distinct (`RE.exOK`, `RE.tysOK`: decidable; both follow from `TextOK` / `TypesOK`) -/
+theorem C15_shortcut_example_admitted (tys : List TypeText) (htys : RE.tysOK tys = true) (fuel : Nat) (opt : Bool)
+    (t : BST) (d : RE.Doc) (hok : RE.exOK t = true) (he : RE.exampleOf tys fuel t = some d) : RE.Admits tys opt t d :=
+  RE.exampleOf_admitted tys htys fuel opt t d hok he
+
+/-- the same for the texts of the class -/
+theorem C15_shortcut_example_admitted_text (w0 : SE.Bytes) (t : BST) (w1 : SE.Bytes) (ht : TextOK w0 t w1)
+    (tys : List TypeText) (htys : TypesOK tys) (fuel : Nat) (opt : Bool) (d : RE.Doc)
+    (he : RE.exampleOf tys fuel t = some d) : RE.Admits tys opt t d :=
+  RE.example_admitted_text w0 t w1 ht tys htys fuel opt d he
+
+/-- the answer does not depend on the fuel -/
+theorem C15_shortcut_example_fuel (tys : List TypeText) (f g : Nat) (hle : f ≤ g) (t : BST) (d : RE.Doc)
+    (h : RE.exampleOf tys f t = some d) : RE.exampleOf tys g t = some d := RE.exampleOf_le tys f g hle t d h
+
+/-- **round trip at text level**: root text and added type texts of the class, distinct user type names, the check stage
+passes; when the closed form answers `e` (explicit decidable hypothesis: it does for some fuel exactly when no type is
+reachable from itself through the first names met from the root), the pipeline scanner → loader → compile → check → JSON
+scanner → validator machine ACCEPTS every document text (one JSON value in any white space) that denotes `e` -/
+theorem C15_shortcut_text_roundtrip (w0 : SE.Bytes) (t : BST) (w1 : SE.Bytes) (ht : TextOK w0 t w1) (tys : List TypeText)
+    (htys : TypesOK tys) (hn : CL.typeNamesOK (typeTexts tys) = true) (opt : Bool)
+    (hc : Compile.check (cnOf opt t) (typesOf tys) = .ok ())
+    (fuel : Nat) (e : RE.Doc) (he : RE.exampleOf tys fuel t = some e)
+    (d : VPos.T UInt8) (hd : (VPos.toJA JsonScan.classify d).Valid) (hde : E2E.docOf d = e) (ws0 ws1 : List UInt8)
+    (hw0 : JsonScan.IsWs (ws0.map JsonScan.classify)) (hw1 : JsonScan.IsWs (ws1.map JsonScan.classify)) :
+    E2E.validateText (docText w0 t w1) (typeTexts tys) (ws0 ++ (d.render VPos.byteSym ++ ws1)) opt = .acc :=
+  RE.shortcut_text_roundtrip w0 t w1 ht tys htys hn opt hc fuel e he d hd hde ws0 ws1 hw0 hw1
+
+/-- the example as a token tree without layout, key TOKENS of the schema text kept (`RE.exampleT`; its rendering
+`RE.exampleBytes` is the compact JSON text the builder emits), denotes the closed form -/
+theorem C15_shortcut_example_tokens (tys : List TypeText) (fuel : Nat) (t : BST) :
+    (RE.exampleT tys fuel t).map E2E.docOf = RE.exampleOf tys fuel t := RE.exampleT_doc tys fuel t
+
+/-- **round trip on the example BYTES**: the pipeline accepts the compact JSON text of the example (in any white space)
+against the schema text it was built from; `hd`: the token tree is JSON (scalar / key tokens of the SCHEMA grammar read
+by the JSON scanner — not derived from `TextOK` here) -/
+theorem C15_shortcut_bytes_roundtrip (w0 : SE.Bytes) (t : BST) (w1 : SE.Bytes) (ht : TextOK w0 t w1)
+    (tys : List TypeText) (htys : TypesOK tys) (hn : CL.typeNamesOK (typeTexts tys) = true) (opt : Bool)
+    (hc : Compile.check (cnOf opt t) (typesOf tys) = .ok ())
+    (fuel : Nat) (d : VPos.T UInt8) (he : RE.exampleT tys fuel t = some d)
+    (hd : (VPos.toJA JsonScan.classify d).Valid) (ws0 ws1 : List UInt8)
+    (hw0 : JsonScan.IsWs (ws0.map JsonScan.classify)) (hw1 : JsonScan.IsWs (ws1.map JsonScan.classify)) :
+    E2E.validateText (docText w0 t w1) (typeTexts tys) (ws0 ++ (d.render VPos.byteSym ++ ws1)) opt = .acc :=
+  RE.shortcut_bytes_roundtrip w0 t w1 ht tys htys hn opt hc fuel d he hd ws0 ws1 hw0 hw1
+
+/-- the statement at full strength, the builder's recursion cut-off included (`RE.exampleCut`): whatever the builder
+answers on a table that passes the check stage is admitted -/
+def C15_shortcut_example_cut_full : Prop := RE.cut_admitted_full
+
+/-- it is FALSE: `@R` = `[@R, 1]` passes the check stage (the array may be empty); the builder with the cut-off answers
+`[[1],1]`, not admitted (`1` at the position of `@R`): the class of the known findings K-C15-arraycut / K-C15-reqcut -/
+theorem C15_shortcut_example_cut_full_false : ¬ C15_shortcut_example_cut_full := RE.cut_admitted_full_false
+
+/-- **where the closed form answers, the cut-off does not fire**: the transliteration of the builder WITH its cut-off
+answers the same document (any table; so on the tables where `exampleOf` answers, the two closed forms are one) -/
+theorem C15_shortcut_example_cut_agrees (tys : List TypeText) (f : Nat) (t : BST) (d : RE.Doc)
+    (he : RE.exampleOf tys f t = some d) : ∃ g, RE.exampleCut tys g [] t = some (some d) :=
+  RE.exampleCut_of_exampleOf tys f t d he
+
+/-- non-vacuity: `SE.Ex.root` = `{"a": @A | @B ,⏎ "b": [@C⏎], "c": 1}` with `@A` = `1`, `@B` = `"s"`, `@C` = `{"k": true}`:
+the example is `{"a":1,"b":[{"k":true}],"c":1}` (first name `@A` at `a`) -/
+example : RE.exampleOf RE.Ex.tys 5 SE.Ex.root
+    = some (.obj [("a", .lit [49]), ("b", .arr [.obj [("k", .lit [116, 114, 117, 101])]]), ("c", .lit [49])]) :=
+  RE.Ex.exDoc_eq
+
+/-- … it is admitted … -/
+example : RE.Admits RE.Ex.tys false SE.Ex.root RE.Ex.exDoc :=
+  C15_shortcut_example_admitted_text [] SE.Ex.root [] SE.Ex.root_ok RE.Ex.tys RE.Ex.tys_ok 5 false _ RE.Ex.exDoc_eq
+
+/-- … and the text-level pipeline accepts the text ` {"a":1,"b":[{"k":true}],"c":1}⏎` against its own schema -/
+example : E2E.validateText (docText [] SE.Ex.root []) (typeTexts RE.Ex.tys)
+    ([32] ++ (RE.Ex.dEx.render VPos.byteSym ++ [10])) false = .acc :=
+  C15_shortcut_text_roundtrip [] SE.Ex.root [] SE.Ex.root_ok RE.Ex.tys RE.Ex.tys_ok RE.Ex.names_ok false RE.Ex.check_ok
+    5 RE.Ex.exDoc RE.Ex.exDoc_eq RE.Ex.dEx RE.Ex.dEx_valid RE.Ex.dEx_doc [32] [10] RE.Ex.sp_ws RE.Ex.lf_ws
+
+/-- the bytes: `{"a":1,"b":[{"k":true}],"c":1}` (what the real `Example()` returns on these texts), accepted -/
+example : (RE.exampleBytes RE.Ex.tys 5 SE.Ex.root).map (fun b => String.fromUTF8! b.toByteArray)
+    = some "{\"a\":1,\"b\":[{\"k\":true}],\"c\":1}" := by decide +kernel
+example : E2E.validateText (docText [] SE.Ex.root []) (typeTexts RE.Ex.tys)
+    ([32] ++ (RE.Ex.dEx.render VPos.byteSym ++ [10])) false = .acc :=
+  C15_shortcut_bytes_roundtrip [] SE.Ex.root [] SE.Ex.root_ok RE.Ex.tys RE.Ex.tys_ok RE.Ex.names_ok false RE.Ex.check_ok
+    5 RE.Ex.dEx RE.Ex.exT_eq RE.Ex.dEx_valid [32] [10] RE.Ex.sp_ws RE.Ex.lf_ws
+
+/-- the witness of the cut-off: builder `[[1],1]`, closed form silent -/
+example : RE.exampleCut RE.CutEx.tysR 6 [] RE.CutEx.rootR = some (some (.arr [.arr [.lit [49]], .lit [49]])) :=
+  RE.CutEx.cut_eq
+
+end Props.C15
+
+#print axioms Props.C15.C15_shortcut_example_admitted
+#print axioms Props.C15.C15_shortcut_example_admitted_text
+#print axioms Props.C15.C15_shortcut_example_fuel
+#print axioms Props.C15.C15_shortcut_text_roundtrip
+#print axioms Props.C15.C15_shortcut_example_cut_full_false
+#print axioms Props.C15.C15_shortcut_example_cut_agrees
+#print axioms Props.C15.C15_shortcut_example_tokens
+#print axioms Props.C15.C15_shortcut_bytes_roundtrip
